@@ -22,15 +22,15 @@ import (
 
 // runRecord is the full observable record of one run plus bookkeeping.
 type runRecord struct {
-	Job     childJob     `json:"job"`
-	OK      bool         `json:"ok"`
-	Fail    string       `json:"fail,omitempty"`
-	Res     childResult  `json:"result"`
-	Metrics []metricRow  `json:"-"`
-	NumRows int          `json:"metric_rows"`
-	Dur     float64      `json:"wall_s"`
-	Races   int          `json:"race_reports"`
-	Out     childOut     `json:"-"`
+	Job     childJob    `json:"job"`
+	OK      bool        `json:"ok"`
+	Fail    string      `json:"fail,omitempty"`
+	Res     childResult `json:"result"`
+	Metrics []metricRow `json:"-"`
+	NumRows int         `json:"metric_rows"`
+	Dur     float64     `json:"wall_s"`
+	Races   int         `json:"race_reports"`
+	Out     childOut    `json:"-"`
 }
 
 func execRun(bins *binaries, scratch string, job childJob) runRecord {
